@@ -1036,13 +1036,15 @@ def expected_words(r):
     return [s[1] for f in r.flows for s in f if s[0] in 'CG' and isinstance(s[1], str) and WORD_RE.fullmatch(s[1])]
 
 
-def align(r, plain):
+def align(r, plain, anyspace=False):
     """walk the predicted segments through the observed text, skipping ASCII
-    white space between segments.  Returns (list of (segment, start, length),
-    problem or None)"""
+    white space between segments (anyspace: every white-space character, also the
+    values of ~ and \\,).  Returns (list of (segment, start, length), problem or None)"""
     segs = [s for f in r.flows for s in f]
     i = 0
     out = []
+    if anyspace:
+        plain = ''.join(' ' if ch.isspace() else ch for ch in plain)
     for s in segs:
         while i < len(plain) and plain[i] in ASCII_WS:
             i += 1
